@@ -101,6 +101,9 @@ func (g *FnGen) doCall(ci ssa.CallInstruction, v ssa.Value) {
 		}
 	}
 
+	if g.parent == nil && g.C != nil && g.C.Forbids[name] {
+		g.oblige("assert", site+"/forbidden-call", guard, "false", "the contract forbids a (reachable) call of "+name+" in this function", ci.Pos())
+	}
 	ct := g.S.Contracts[name]
 	// a contract may be specialised on a literal first argument: extern fmt.Sprintf["%X"]
 	if len(c.Args) > 0 && !c.IsInvoke() {
